@@ -95,6 +95,40 @@ func init() {
 		if err != nil {
 			evid.Inconclusive("trace validation: %v", err)
 		}
+		// LMTP: one final reply per accepted recipient whatever the backend program
+		// (duplicates, statuses set or left to the return value): a reply that never
+		// comes is a proven hang
+		lcases := genLmtp(3)
+		nlh := 0
+		{
+			var lwg sync.WaitGroup
+			var lmu sync.Mutex
+			lsem := make(chan struct{}, 16)
+			for i, c := range lcases {
+				lwg.Add(1)
+				go func(i int, c *lmtpCase) {
+					defer lwg.Done()
+					lsem <- struct{}{}
+					defer func() { <-lsem }()
+					if drv.TooManyHangs() {
+						return
+					}
+					msg, err := runLmtpCase(c, i)
+					var stuck *drv.StuckError
+					lmu.Lock()
+					defer lmu.Unlock()
+					if err != nil && asStuck(err, &stuck) {
+						nlh++
+						run.Report(evid.Div{Prop: "C04", Key: "lmtp-replies-missing:" + c.Mode + ":" + stuck.Where, Msg: fmt.Sprintf("LMTP recipients %v, backend program %+v -> %s (%s): the final replies never complete - %v", c.Rcpts, c.Calls, c.Outcome, c.Mode, stuck), Replay: c})
+					} else if err == nil && msg != "" {
+						run.Report(evid.Div{Prop: "C04", Key: "lmtp-replies-shape:" + c.Mode + ":" + c.Outcome, Msg: fmt.Sprintf("LMTP recipients %v, backend program %+v -> %s (%s): %s", c.Rcpts, c.Calls, c.Outcome, c.Mode, msg), Replay: c})
+					}
+				}(i, c)
+			}
+			lwg.Wait()
+		}
+		fmt.Printf("C04: %d LMTP backend programs run on the real server (one final reply per accepted recipient), %d hangs\n", len(lcases), nlh)
+		np += len(lcases)
 		vstates, vsched := verdictFamily(run)
 		fmt.Printf("C04: Verdict.tla %d states (violated with the deviation switched on); %d gated stale-verdict schedules replayed and validated by TLC\n", vstates, vsched)
 		mc.Distinct += vstates
